@@ -21,7 +21,7 @@ ASSUMPTIONS = [
     "Lean 4 kernel; axioms propext, Classical.choice, Quot.sound only",
     "the theorems cover lexer termination/size and the expansion kernel only; parser, lowerer, validator and back ends are "
     "explored by the worker sweep (partial by nature: stack overflow, OOM and panics are Go run-time behaviour)",
-    "budgets: 6 GiB address space, 45 s per stage and per input (quick), 120 s (thorough) — an input slower than that on this machine is reported",
+    "budgets: 6 GiB address space, 45 s of the worker's CPU time per stage and per input (quick), 120 s (thorough), 8 times that in wall-clock time — an input slower than that is reported",
     "Go harness: input generator, stage driver with recover; Python supervisor: limits, crash attribution, restart",
 ]
 TECHNIQUE = "Lean 4 theorems for the lexer and expansion kernels + isolated-worker fuzzing with resource limits (exploration)"
@@ -61,15 +61,25 @@ def run(ck):
         with open(logp, "wb") as lo, open(errp, "wb") as le:
             p = subprocess.Popen([ck.vh, "c10", "-seed", str(ck.seed), "-tier", ck.tier, "-n", str(n), "-out", out, "skip=%d" % skip],
                                  cwd=ck.dir, env=env, stdout=lo, stderr=le, preexec_fn=limits)
-            # watchdog: the log must advance at least every `per` seconds
-            last_size, last_t = -1, time.time()
+            # watchdog: the log must advance at least every `per` seconds of the worker's own CPU time (a loaded machine
+            # must not turn a 10 s stage into a "stall"), and in any case every 8 x `per` seconds of wall-clock time (a
+            # worker that sleeps or deadlocks burns no CPU)
+            tick = os.sysconf("SC_CLK_TCK")
+
+            def cpu_s(pid):
+                try:
+                    f = open("/proc/%d/stat" % pid).read().rsplit(")", 1)[1].split()
+                    return (int(f[11]) + int(f[12])) / tick
+                except Exception:
+                    return 0.0
+            last_size, last_t, last_cpu = -1, time.time(), 0.0
             stalled = False
             while p.poll() is None:
                 time.sleep(0.2)
                 sz = os.path.getsize(logp)
                 if sz != last_size:
-                    last_size, last_t = sz, time.time()
-                elif time.time() - last_t > per:
+                    last_size, last_t, last_cpu = sz, time.time(), cpu_s(p.pid)
+                elif cpu_s(p.pid) - last_cpu > per or time.time() - last_t > 8 * per:
                     stalled = True
                     p.kill()
                     p.wait()
